@@ -73,14 +73,14 @@ type DStep struct {
 }
 
 type DCase struct {
-	W       int          `json:"w"`
-	Config  int          `json:"config"`
-	Limit   int          `json:"limit"`
-	Updates []DUpd       `json:"updates"`
-	Script  []Act        `json:"script"`
-	Routes  [][][2]int   `json:"routes,omitempty"` // label set -> keys (route index, group-fingerprint id)
-	Steps   []DStep      `json:"steps,omitempty"`
-	Note    string       `json:"note,omitempty"`
+	W       int        `json:"w"`
+	Config  int        `json:"config"`
+	Limit   int        `json:"limit"`
+	Updates []DUpd     `json:"updates"`
+	Script  []Act      `json:"script"`
+	Routes  [][][2]int `json:"routes,omitempty"` // label set -> keys (route index, group-fingerprint id)
+	Steps   []DStep    `json:"steps,omitempty"`
+	Note    string     `json:"note,omitempty"`
 }
 
 const tick = 10 * time.Second
